@@ -127,7 +127,7 @@ def run(ctx):
                'complete records are located with plain pickle, not with the code under test', 'a clean end after fewer records than were complete is an exact prefix and is accepted')
     ctx.require_events('truncated-read', 'outcome:exception', 'outcome:clean-end', 'enospc-run')
     ctx.require_regimes('with-fluxes', 'without-fluxes', 'records=1', 'records>=3', 'cut:in-metadata', 'cut:in-record', 'cut:on-boundary')
-    n_files = 4 if ctx.quick else 24
+    n_files = 4 if ctx.quick else 60
     for ifile in range(n_files):
         n_rec = [1, 3, 2, 4][ifile % 4]
         with_fluxes = bool(ifile % 2)
